@@ -7,8 +7,7 @@ Import ListNotations.
 From YP Require Import Base.Str Term.Term Unify.Unify Lang.Ast Comp.IR Comp.CompileBody Comp.CompileClause Comp.CompileTotal
   Sem.Res Sem.RefSem Sem.IRSem Sem.ControlCorrect Sem.Machine Sem.ClauseSem Sem.ProgramCorrect Sem.SpecLemmas.
 
-(* For EVERY body expression tree over {call, true, fail, !, ',', ';', '->', '\+'} without a cut inside a
-   condition or under \+ (noc b), every interpretation of the leaves (all solution counts), every
+(* For EVERY body expression tree over {call, true, fail, !, ',', ';', '->', '\+'} (a cut inside a condition or under \+ is local to it), every interpretation of the leaves (all solution counts), every
    continuation (the theorem is about whole bodies, and ',' is one of the constructors) and every value
    of the label counter: the code emitted by the rewriting compiler (distribution of the continuation
    over ';', breakable blocks with cutIfN labels, the doBreak protocol, `if doBreak: break` after every
@@ -17,7 +16,7 @@ Theorem C06_control_code_correct : forall (S : Type) (I : str -> list sterm -> S
   (J : expr -> S -> list S * bool) (assign : str -> expr -> S -> S),
   (forall f args s, J (query_expr f args) s = I f args s) ->
   forall n b cnt code cnt',
-  comp n b cnt = Some (code, cnt') -> nomark b = true -> noc b = true ->
+  comp n b cnt = Some (code, cnt') -> nomark b = true ->
   forall s, (let '(ys, k) := run_function J assign code s in (ys, fin_of_compl k)) = sem I b s.
 Proof. exact control_correct_function. Qed.
 Print Assumptions C06_control_code_correct.
@@ -28,7 +27,7 @@ Theorem C06_control_correct_flags : forall (S : Type) (I : str -> list sterm -> 
   (J : expr -> S -> list S * bool) (assign : str -> expr -> S -> S),
   (forall f args s, J (query_expr f args) s = I f args s) ->
   forall n b cnt code cnt',
-  comp n b cnt = Some (code,cnt') -> nomark b = true -> noc b = true ->
+  comp n b cnt = Some (code,cnt') -> nomark b = true ->
   noasg code = true /\
   forall s f, doBreak f = false ->
     exists f', exec_list J assign code s f = (fst (sem I b s), cof (snd (sem I b s)), f') /\
@@ -87,18 +86,30 @@ Theorem C06_and_spec : forall (S : Type) (I : str -> list sterm -> S -> list S *
 Proof. exact and_spec. Qed.
 Print Assumptions C06_and_spec.
 
-(* KNOWN FINDING KF-C06-1, kept as a theorem: with a cut under \+ (or inside a condition) the compiled
-   code does NOT compute the reference:  q :- \+ (!, fail).  must succeed once; the compiled code fails. *)
+(* A cut inside a condition or under \+ is local to it (the former finding KF-C06-1, repaired in the
+   compiler: such a condition gets a block of its own that the cut leaves).  q :- \+ (!, fail).  succeeds once;
+   r(X) :- ( (m(X), !, n(X)) -> Y = then ; Y = else ) commits to the first m and takes the else branch. *)
 Local Open Scope string_scope.
 Definition opaque_cut_prog : program :=
-  [ {| c_name := d "q"; c_args := []; c_body := BNot (BAnd BCut BFail) |} ].
-Theorem C06_opaque_cut_refuted :
-  exists p ir n name args s, compile_program p = Some ir /\ query n ir name args s <> solveA n p name args s.
+  [ {| c_name := d "q"; c_args := []; c_body := BNot (BAnd BCut BFail) |};
+    {| c_name := d "r"; c_args := [SVar (d "X"); SVar (d "Y")];
+       c_body := BOr (BIf (BAnd (BCall (d "m") [SVar (d "X")]) (BAnd BCut (BCall (d "n") [SVar (d "X")])))
+                          (BCall (d "=") [SVar (d "Y"); SAtom (d "then")]))
+                     (BCall (d "=") [SVar (d "Y"); SAtom (d "else")]) |};
+    {| c_name := d "m"; c_args := [SAtom (d "a")]; c_body := BTrue |};
+    {| c_name := d "m"; c_args := [SAtom (d "b")]; c_body := BTrue |};
+    {| c_name := d "n"; c_args := [SAtom (d "b")]; c_body := BTrue |} ].
+Example C06_cut_in_condition_is_local :
+  good_program opaque_cut_prog /\
+  exists ir, compile_program opaque_cut_prog = Some ir /\
+  length (fst (query 5 ir (d "q") [] {| sto := []; nxt := 0 |})) = 1 /\
+  map (fun x => (den (sto x) (TVar 0), den (sto x) (TVar 1)))
+      (fst (query 5 ir (d "r") [TVar 0; TVar 1] {| sto := []; nxt := 2 |})) = [(TVar 0, TAtom (d "else"))].
 Proof.
-  exists opaque_cut_prog. eexists. exists 3, (d "q"), [], {| sto := []; nxt := 0 |}.
-  split; [vm_compute; reflexivity|]. vm_compute. discriminate.
+  split.
+  - repeat constructor.
+  - eexists. split; [vm_compute; reflexivity|]. vm_compute. split; reflexivity.
 Qed.
-Print Assumptions C06_opaque_cut_refuted.
 
 (* non-vacuity:  p(X,R) :- ( q(X) -> R = then ; R = else ), \+ X = b.   q(a). q(b). *)
 Definition ite_prog : program :=
